@@ -238,6 +238,31 @@ pub fn gen_big(rng: &mut Rng, pools: &Pools, long_needles: bool) -> Case {
 
 /// big haystacks made of filler with only a handful of interesting characters: the prefilter window
 /// is wide (greedy fallback / slab limits) while the relation itself is decided by a few positions
+/// one gap of a length around 2^16 / 2^17 between two matched characters (the gap penalty is charged per skipped character and
+/// floors at zero; a penalty computed for the whole gap at once has to survive lengths that do not fit 16 bits)
+pub fn gen_long_gap(rng: &mut Rng) -> Case {
+    let cfg = gen_cfg(rng, true);
+    let filler = *rng.pick(&['x', '-', ' ', '\u{4e2d}']);
+    let gap = *rng.pick(&[65_534usize, 65_535, 65_536, 65_537, 65_538, 65_540, 65_550, 65_566, 65_600, 131_071, 131_072, 131_073, 131_080]);
+    let head: Vec<char> = rng.pick(&["a", "ab", "/a", " ab", "Ab"]).chars().collect();
+    let tail: Vec<char> = rng.pick(&["b", "bc", "c", "/c", "B"]).chars().collect();
+    let k = rng.below(3);
+    let mut hay: Vec<char> = gen_text(rng, &['q', ' '], k);
+    hay.extend(head.iter());
+    hay.extend(std::iter::repeat(filler).take(gap));
+    hay.extend(tail.iter());
+    let k = rng.below(3);
+    hay.extend(gen_text(rng, &['q', ' '], k));
+    let mut needle: Vec<char> = head.iter().chain(tail.iter()).copied().filter(|c| c.is_alphanumeric()).collect();
+    normalize_needle(&mut needle, &cfg);
+    Case {
+        hay: Text::new(hay),
+        needle: Text::new(needle),
+        cfg,
+        profile: "long-gap",
+    }
+}
+
 pub fn gen_sparse_big(rng: &mut Rng, pools: &Pools) -> Case {
     let cfg = gen_cfg(rng, true);
     let unicode = rng.coin();
@@ -248,6 +273,10 @@ pub fn gen_sparse_big(rng: &mut Rng, pools: &Pools) -> Case {
     let mut specials: Vec<char> = "abAB1/".chars().collect();
     if unicode {
         specials.push(*rng.pick(&pools.curated));
+        // far-away characters with an ASCII image (KELVIN SIGN is the only one above the Latin blocks), and their plain partners
+        if rng.coin() {
+            specials = vec!['\u{212a}', *rng.pick(&['k', 'K', 'a', '\u{17f}', 's', '\u{212b}']), *rng.pick(&['b', '\u{212a}', 'o'])];
+        }
     }
     rng.shuffle(&mut specials);
     specials.truncate(rng.range(1, 3));
@@ -952,13 +981,20 @@ pub fn gen_saturated_tail(rng: &mut Rng) -> Case {
 
 pub fn gen_case_for(idx: u64, rng: &mut Rng, pools: &Pools, props: &Props, long_only: bool) -> Case {
     if long_only {
-        return if idx % 3 == 2 { gen_saturated_tail(rng) } else { gen_big(rng, pools, true) };
+        return if idx % 3 == 2 {
+            gen_saturated_tail(rng)
+        } else if idx % 12 == 1 {
+            gen_long_gap(rng)
+        } else {
+            gen_big(rng, pools, true)
+        };
     }
     let score_only = props.c03 && !props.c01 && !props.c02 && !props.c05 && !props.c10;
     let anchored_heavy = props.c05 && !props.c01;
     match idx % 64 {
         0 => gen_big(rng, pools, false),
         32 if idx % 128 == 32 => gen_sparse_big(rng, pools),
+        32 if idx % 8192 == 96 => gen_long_gap(rng),
         1 if idx % 256 == 1 => gen_big(rng, pools, true),
         1 if idx % 256 == 129 => gen_saturated_tail(rng),
         2..=9 if !score_only => gen_placed(rng, pools),
